@@ -8,7 +8,7 @@ import shutil
 import subprocess
 import tempfile
 
-from core import sx
+from core import sx, unsx
 
 ID = "C29"
 READY = True
@@ -29,6 +29,7 @@ THEOREMS = [
     "RedunModel.C29.output_shape",
     "RedunModel.C29.output_leaves",
     "RedunModel.C29.input_args_shape",
+    "RedunModel.C29.second_prepare_keeps_command",
 ]
 TRUSTED = [
     "modelled, not verified: str.split('\\n'), '\\n'.join, str(int), str.strip (CPython's White_Space table), "
@@ -448,11 +449,31 @@ def check_scripts(ctx, cases):
         # every output File other than '-' must be (self-)staged; outputs keep their shape
         result = object()
         post_reqs.append("post " + to_nv(outs))
+        post_reqs.append("exec " + sx(full))
         final = postprocess_script.func(result, outs, temp_path=None)
-        post_meta.append((case, c, outs, final, result))
+        post_meta.append((case, c, outs, final, result, full, prepare_command(cmd_s)))
     pout = ctx.model("C29", post_reqs)
-    from redun.file import Dir
-    for (case, c, outs, final, result), mo in zip(post_meta, pout):
+    for k, (case, c, outs, final, result, full, prep) in enumerate(post_meta):
+        mo = pout[2 * k]
+        m_exec = unsx(pout[2 * k + 1])[0]
+        executed = prepare_command(full)        # what get_task_command hands to exec_script for script_task
+        if m_exec[0] != executed:
+            ctx.mismatch("prepare_command(full_command) differs from model executedScript", case=case, model=m_exec[0], impl=executed)
+        if str(m_exec[1]) == "none" or m_exec[1] != prep + "\n":
+            ctx.mismatch("model: here-document in the executed script does not hold prepare_command(cmd)", case=case,
+                         model=str(m_exec[1]), impl=prep + "\n")
+        # the same reader on the real text: the user's command must survive the second prepare_command
+        lines = executed.split("\n")
+        try:
+            i0 = next(i for i, ln in enumerate(lines) if ln.startswith('cat > "$COMMAND_FILE" <<"') and ln.endswith('"'))
+            delim = lines[i0][len('cat > "$COMMAND_FILE" <<"'):-1]
+            i1 = lines.index(delim, i0 + 1)
+            body = "".join(ln + "\n" for ln in lines[i0 + 1:i1])
+        except (StopIteration, ValueError):
+            body = None
+        if body != prep + "\n":
+            ctx.violation("C29-second-prepare-alters-command", "prepare_command applied to the full command changes the user's command "
+                          "inside the here-document", case=case, expected=prep + "\n", actual=body)
         impl = to_nv(final, result)
         if mo != impl:
             ctx.mismatch("postprocess_script differs from model postprocess", case=case, model=mo, impl=impl)
